@@ -140,7 +140,7 @@ class _Watchdog(BaseException):
 
 
 WATCHDOG_S = float(os.environ.get("VERIF_CALL_WATCHDOG", "30" if os.environ.get("VERIF_TIER", "quick") == "quick" else "120"))       # generous wall-clock watchdog per call: its firing decides nothing by itself
-STEP_BUDGET = int(float(os.environ.get("VERIF_STEP_BUDGET", "3e7")))   # statements inside the tree (the longest legitimate call, a 60 000-sample batch run, executes ~6e6)
+STEP_BUDGET = int(float(os.environ.get("VERIF_STEP_BUDGET", "3e8")))   # statements inside the tree (the longest legitimate call, 46 000 samples streamed by hand through Madgwick.updateMARG with Quaternion-typed attitudes, executes ~3.2e7)
 _depth = [0]
 WATCHDOG_STATS = {"fired": 0, "non_terminating": 0}
 
